@@ -44,7 +44,7 @@ ALIAS_FUNCS = {
 SHALLOW_FUNCS = {"evolve", "list", "tuple", "dict", "sorted", "set", "copy", "asdict", "chain", "filter", "map"}
 INPLACE_FUNCS = {"fill_diagonal", "put", "place", "copyto", "putmask", "shuffle", "put_along_axis"}
 
-ORDER = {"fresh": 0, "shallow": 1, "arg": 2, "glob": 3}
+ORDER = {"fresh": 0, "shallow": 1, "gshallow": 2, "arg": 3, "glob": 4}
 
 
 def join(*rs):
@@ -133,6 +133,7 @@ class Package:
                 elif isinstance(node, (ast.FunctionDef, ast.AsyncFunctionDef)):
                     self._add_func(mod, node.name, node, None)
                 elif isinstance(node, ast.ClassDef):
+                    mutable.add(node.name)
                     for sub in node.body:
                         if isinstance(sub, (ast.FunctionDef, ast.AsyncFunctionDef)):
                             self._add_func(mod, f"{node.name}.{sub.name}", sub, node.name)
@@ -230,6 +231,8 @@ class Analyzer:
                     return "glob"
             return "fresh"
         if isinstance(e, ast.Attribute):
+            if e.attr == "__class__":
+                return "glob"
             r = self.root(f, env, e.value)
             if r == "fresh" and isinstance(e.value, ast.Name):
                 # module.TABLE
@@ -239,7 +242,7 @@ class Analyzer:
                     tgt = m2 + "." + n2
                 if tgt and e.attr in pkg.modglobals.get(tgt, ()):
                     return "glob"
-            return "arg" if r == "shallow" else r
+            return "arg" if r == "shallow" else ("glob" if r == "gshallow" else r)
         if isinstance(e, ast.Subscript):
             p = self.path(e)
             if p is not None and env.get(p[0], "fresh") == "fresh" and not self.is_global(f, p[0]):
@@ -250,7 +253,7 @@ class Analyzer:
                         return r if k == len(p) else self.elem(r)
                 return "fresh"
             r = self.root(f, env, e.value)
-            return "arg" if r == "shallow" else r
+            return "arg" if r == "shallow" else ("glob" if r == "gshallow" else r)
         if isinstance(e, ast.Starred):
             return self.root(f, env, e.value)
         if isinstance(e, (ast.IfExp,)):
@@ -261,10 +264,14 @@ class Analyzer:
             return self.root(f, env, e.value)
         if isinstance(e, (ast.List, ast.Tuple, ast.Set)):
             rs = [self.root(f, env, x) for x in e.elts]
-            return "shallow" if any(r in ("arg", "shallow", "glob") for r in rs) else "fresh"
+            if any(r in ("glob", "gshallow") for r in rs):
+                return "gshallow"
+            return "shallow" if any(r in ("arg", "shallow") for r in rs) else "fresh"
         if isinstance(e, ast.Dict):
             rs = [self.root(f, env, x) for x in e.values if x is not None]
-            return "shallow" if any(r in ("arg", "shallow", "glob") for r in rs) else "fresh"
+            if any(r in ("glob", "gshallow") for r in rs):
+                return "gshallow"
+            return "shallow" if any(r in ("arg", "shallow") for r in rs) else "fresh"
         if isinstance(e, (ast.ListComp, ast.SetComp, ast.GeneratorExp, ast.DictComp)):
             env2 = dict(env)
             for g in e.generators:
@@ -274,6 +281,8 @@ class Analyzer:
             return "shallow" if any(r in ("arg", "shallow", "glob") for r in rs) else "fresh"
         if isinstance(e, ast.Call):
             fn = e.func
+            if isinstance(fn, ast.Name) and fn.id == "type" and len(e.args) == 1:
+                return "glob"  # type(obj): the class object is shared state
             argroots = [self.root(f, env, a) for a in e.args] + [self.root(f, env, k.value) for k in e.keywords]
             if isinstance(fn, ast.Attribute):
                 recv = self.root(f, env, fn.value)
@@ -290,14 +299,22 @@ class Analyzer:
                     return "arg" if r == "shallow" else r
                 if fn.id in SHALLOW_FUNCS:
                     return "shallow" if any(r != "fresh" for r in argroots) else "fresh"
+            last = fn.attr if isinstance(fn, ast.Attribute) else (fn.id if isinstance(fn, ast.Name) else "")
+            if last[:1].isupper() and not last.isupper():
+                # a class constructor: the new object holds references to its arguments
+                if any(r in ("glob", "gshallow") for r in argroots):
+                    return "gshallow"
+                if any(r in ("arg", "shallow") for r in argroots):
+                    return "shallow"
+                return "fresh"
             callees = self.pkg.resolve_call(f.module, fn)
             if callees:
                 rs = []
                 for c in callees:
                     if c.returns != "fresh" and any(r != "fresh" for r in argroots):
                         rs.append(c.returns if c.returns != "glob" else "glob")
-                    elif c.returns == "glob":
-                        rs.append("glob")
+                    elif c.returns in ("glob", "gshallow"):
+                        rs.append(c.returns)
                 return join(*rs) if rs else "fresh"
             return "fresh"
         return "fresh"
@@ -325,7 +342,7 @@ class Analyzer:
 
     @staticmethod
     def elem(r):
-        return "arg" if r == "shallow" else r
+        return "arg" if r == "shallow" else ("glob" if r == "gshallow" else r)
 
     def bind(self, f, env, target, r):
         if isinstance(target, ast.Name):
